@@ -665,9 +665,9 @@ pub fn random_op(rng: &mut Rng, paths: &[String], cwd: &str, uid: &mut u64) -> O
     let p = pick(rng);
     match rng.below(60) {
         0..=4 => Op::MkdirP(p),
-        5 => Op::MkdirM(p, *rng.pick(&[0o700u32, 0o755, 0o511, 0o7777, 0o40000, 0o40700])),
+        5 => Op::MkdirM(p, *rng.pick(&[0o700u32, 0o755, 0o511, 0o7777, 0o40000, 0o40700, 0])),
         6..=8 => Op::Mkfile(p),
-        9 => Op::MkfileM(p, *rng.pick(&[0o600u32, 0o444, 0o755])),
+        9 => Op::MkfileM(p, *rng.pick(&[0o600u32, 0o444, 0o755, 0])),
         10..=13 => Op::WriteAll(p, random_data(rng, uid)),
         14..=16 => Op::AppendAll(p, random_data(rng, uid)),
         17 => Op::WriteLines(p, (0..rng.below(4)).map(|i| if rng.chance(1, 6) { String::new() } else { format!("w{}-{}", uid, i) }).collect()),
